@@ -618,8 +618,8 @@ def compare(lines, labels, bins, driver, workdir, nshards=16, timeout_ms=30000):
         for p, v in rec['impl'].items():
             if v == 'NOHOOKS':
                 continue
-            if not field_match(v, spec):
-                kinds.append('impl!=spec')
+            if driver and spec != 'CRASH' and not field_match(v, spec):
+                kinds.append('impl!=spec')          # only against an oracle that actually ran
             if driver and v != model:
                 kinds.append('impl!=model')
         if driver and not field_match(model, spec):
